@@ -366,6 +366,19 @@ def check(prop, tier, seed):
                     extra_in.append(w)
         inputs.extend(extra_in)
         gen_stats.append({"name": "rescaled_copies", "vectors": len(extra_in)})
+    if plan.get("via_artifact"):
+        # bytes of the independent encoder (unknown fields, explicit defaults, unpacked scalars, any field order) also arrive
+        # as artifact LAYERS: stored with the matching media type and read back through the typed getters
+        extra_in = []
+        for v in inputs:
+            if v.get("ev") == "wire_decode" and str(v["in"].get("type", "")).replace("_", "").lower() in ("instance", "parametricinstance", "state", "sampleset"):
+                w = json.loads(json.dumps(v))
+                w["in"]["via"] = "artifact"
+                w["in"]["dir"] = os.path.relpath(os.path.join(wd, "arch"), ROOT)
+                w["case"] = str(w.get("case", "")) + "-layer"
+                extra_in.append(w)
+        inputs.extend(extra_in)
+        gen_stats.append({"name": "wire_decode_via_artifact_layer", "vectors": len(extra_in)})
     inp_path = os.path.join(wd, "inputs.ndjson")
     with open(inp_path, "w") as f:
         for v in inputs:
